@@ -27,6 +27,15 @@ import Earverif.Model.TrackSpec
 import Earverif.Model.Timeline
 import Earverif.Model.Pcm
 import Earverif.Model.FileRender
+import Earverif.Model.Bw64Reader
+import Earverif.Model.Hoa
+import Earverif.Model.Renderer
+import Earverif.Model.PointSource
+import Earverif.Model.Conversion
+import Earverif.Model.Zone
+import Earverif.Model.ChannelLock
+import Earverif.Model.DirectSpeakersGeom
+import Earverif.Model.TimingFix
 
 namespace Earverif.Kernels
 open Earverif
@@ -162,5 +171,292 @@ theorem has_overloaded_eq_model (peak : List Rat) :
   first
   | rfl
   | (simp only [Gen.has_overloaded, FileRender.hasOverloaded]; congr 1; funext p; grind)
+
+
+/-! ## Round 2
+
+Where a model has no separate def for the translated piece (it is an expression inside a larger model function),
+the theorem states the *unfolding* of that model function with the translated def in place of the expression, so the
+tie is still to the model def the property theorems are about. -/
+
+/-! ### C09 / C17 — chunk walk (`_read_chunks`), `close` tests, `_calc_riff_chunk_size`; C11 — ACN; C02 — latency
+constants; C05 / C12 — stereo level law -/
+
+theorem read_chunks_step_eq_model (f : Bw64.Bytes) (ds : Option Bw64.Ds64) (fuel pos : Nat) (t : Bw64.Table)
+    (w : List Bw64.Warn) :
+    Bw64.readChunks f ds (fuel + 1) pos t w =
+      match Bw64.readChunkHeader f ds pos with
+      | .eof => .ok (t, w)
+      | .badId => .error .badId
+      | .hdr id sz =>
+        match Gen.read_chunks_step (pos + 8) sz f.length (decide (id = Bw64.idData)) with
+        | none => .error .chunkEnd
+        | some e =>
+          Bw64.readChunks f ds fuel e ((id, sz, pos) :: t) (if e > f.length then w ++ [.dataPad] else w) := by
+  rw [Bw64.readChunks]
+  cases Bw64.readChunkHeader f ds pos with
+  | eof => rfl
+  | badId => rfl
+  | hdr id sz =>
+    simp only [Gen.read_chunks_step, Nat.and_one_is_mod]
+    grind
+
+theorem close_pad_test_eq_model (s : Bw64.WState) :
+    s.padData = if Gen.close_pad_test s.dataBytes then { s with buf := s.buf ++ [0] } else s := by
+  simp only [Bw64.WState.padData, Gen.close_pad_test, Nat.and_one_is_mod]
+  grind
+
+theorem close_bw64_test_eq_model (s : Bw64.WState) :
+    Bw64.finalizeW s =
+      (let riffSize := s.buf.length - 8
+       if Gen.close_bw64_test riffSize s.force then
+         Bw64.patchAt (Bw64.patchAt s.buf 0 Bw64.idBW64) 12 (Bw64.ds64Chunk riffSize s.dataBytes)
+       else
+         Bw64.patchAt (Bw64.patchAt s.buf 4 (Bw64.le 4 riffSize)) (s.dataPos + 4) (Bw64.le 4 s.dataBytes)) := by
+  simp only [Bw64.finalizeW, Gen.close_bw64_test]
+  grind
+
+theorem calc_riff_chunk_size_eq_model (s : Bw64.WState) (pos : Nat) :
+    Bw64.finalizeW s =
+      (let riffSize := (Gen.calc_riff_chunk_size pos s.buf.length).toNat
+       if riffSize ≥ 2 ^ 32 || s.force then
+         Bw64.patchAt (Bw64.patchAt s.buf 0 Bw64.idBW64) 12 (Bw64.ds64Chunk riffSize s.dataBytes)
+       else
+         Bw64.patchAt (Bw64.patchAt s.buf 4 (Bw64.le 4 riffSize)) (s.dataPos + 4) (Bw64.le 4 s.dataBytes)) := by
+  have h : (Gen.calc_riff_chunk_size pos s.buf.length).toNat = s.buf.length - 8 := by
+    simp only [Gen.calc_riff_chunk_size]; omega
+  simp only [Bw64.finalizeW, h]
+
+theorem to_acn_eq_model (n m : Int) : Gen.to_acn n m = Hoa.toAcn n m := by
+  first | rfl | (simp only [Gen.to_acn, Hoa.toAcn]; grind)
+
+theorem from_acn_eq_model (acn : Nat) : Gen.from_acn acn = Hoa.fromAcn acn := by
+  simp only [Gen.from_acn, Hoa.fromAcn]
+  grind
+
+theorem decorrelator_delay_eq_model {V : Type} (c : Renderer.Cfg V) (h : 1 ≤ c.taps.length) :
+    Gen.decorrelator_delay c.taps.length = (c.decorrelator_delay : Int) := by
+  simp only [Gen.decorrelator_delay, Renderer.Cfg.decorrelator_delay]
+  rw [Int.fdiv_eq_ediv_of_nonneg _ (by omega)]
+  omega
+
+theorem vbs_delay_eq_model {V : Type} (c : Renderer.Cfg V) :
+    Gen.vbs_delay c.block_size c.decorrelator_delay = c.overall_delay := by
+  first | rfl | (simp only [Gen.vbs_delay, Renderer.Cfg.overall_delay]; grind)
+
+theorem stereo_level_eq_model {α : Type} [PointSource.Scalar α] (g0 g1 g2 g3 g4 : α) :
+    PointSource.StereoPanDownmix.handle (some [g0, g1, g2, g3, g4]) =
+      some ((PointSource.normalise (PointSource.matVec PointSource.stereoDownmix [g0, g1, g2, g3, g4])).map
+        (· * Gen.stereo_level (PointSource.Scalar.max (PointSource.Scalar.max g0 g1) g2) (PointSource.Scalar.max g3 g4))) := rfl
+
+/-! ### C19 — conversion helpers, `relative_angle`, `inside_angle_range` (over the Scalar class of Model/Conversion.lean);
+C10 — `inside_angle_range` against Model/DirectSpeakersGeom.lean (its per-loop fuel) -/
+
+section
+variable {α : Type} [Conv.Scalar α]
+
+theorem map_az_to_linear_eq_model (l r az : α) : Gen.map_az_to_linear l r az = Conv.mapAzToLinear l r az := rfl
+theorem map_linear_to_az_eq_model (l r x : α) : Gen.map_linear_to_az l r x = Conv.mapLinearToAz l r x := rfl
+theorem el_to_cart_eq_model (P : Conv.Params α) (el d : α) : Gen.el_to_cart P el d = Conv.elToCart P el d := rfl
+theorem el_to_polar_eq_model (P : Conv.Params α) (z rxy : α) : Gen.el_to_polar P z rxy = Conv.elToPolar P z rxy := rfl
+
+theorem relative_angle_loop1_eq (x : α) : ∀ n y, Gen.relative_angle_loop1 x n y = Conv.downGe x n y := by
+  intro n; induction n with
+  | zero => intro y; rfl
+  | succ n ih => intro y; simp only [Gen.relative_angle_loop1, Conv.downGe, ih, Conv.k]; first | done | rfl | congr
+theorem relative_angle_loop2_eq (x : α) : ∀ n y, Gen.relative_angle_loop2 x n y = Conv.upLt x n y := by
+  intro n; induction n with
+  | zero => intro y; rfl
+  | succ n ih => intro y; simp only [Gen.relative_angle_loop2, Conv.upLt, ih, Conv.k]; first | done | rfl | congr
+theorem relative_angle_eq_model (fuel : Nat) (x y : α) : Gen.relative_angle fuel x y = Conv.relativeAngle fuel x y := by
+  simp only [Gen.relative_angle, Conv.relativeAngle, relative_angle_loop1_eq, relative_angle_loop2_eq]
+
+theorem inside_angle_range_loops_eq (s : α) :
+    (∀ n y, Gen.inside_angle_range_loop1 s n y = Conv.downGt s n y) ∧
+    (∀ n y, Gen.inside_angle_range_loop2 s n y = Conv.upLt s n y) ∧
+    (∀ n y, Gen.inside_angle_range_loop3 s n y = Conv.downGe s n y) ∧
+    (∀ n y, Gen.inside_angle_range_loop4 s n y = Conv.upLt s n y) := by
+  refine ⟨?_, ?_, ?_, ?_⟩ <;> intro n <;> induction n with
+  | zero => intro y; rfl
+  | succ n ih =>
+    intro y
+    simp only [Gen.inside_angle_range_loop1, Gen.inside_angle_range_loop2, Gen.inside_angle_range_loop3,
+      Gen.inside_angle_range_loop4, Conv.downGt, Conv.downGe, Conv.upLt, ih, Conv.k]
+    first | done | rfl | congr
+theorem inside_angle_range_eq_model (fuel : Nat) (x s e tol : α) :
+    Gen.inside_angle_range fuel x s e tol = Conv.insideAngleRange fuel x s e tol := by
+  have h := inside_angle_range_loops_eq (α := α)
+  simp only [Gen.inside_angle_range, Conv.insideAngleRange, (h _).1, (h _).2.1, (h _).2.2.1, (h _).2.2.2]
+end
+
+theorem inside_angle_range_ds_loops_eq (s : Rat) :
+    (∀ n y, Gen.inside_angle_range_ds_loop1 s n y = DS.decWhile true s n y) ∧
+    (∀ n y, Gen.inside_angle_range_ds_loop2 s n y = DS.incWhile s n y) ∧
+    (∀ n y, Gen.inside_angle_range_ds_loop3 s n y = DS.decWhile false s n y) ∧
+    (∀ n y, Gen.inside_angle_range_ds_loop4 s n y = DS.incWhile s n y) := by
+  refine ⟨?_, ?_, ?_, ?_⟩ <;> intro n <;> induction n with
+  | zero => intro y; rfl
+  | succ n ih =>
+    intro y
+    simp [Gen.inside_angle_range_ds_loop1, Gen.inside_angle_range_ds_loop2, Gen.inside_angle_range_ds_loop3,
+      Gen.inside_angle_range_ds_loop4, DS.decWhile, DS.incWhile, DS.decCond, ih]
+theorem inside_angle_range_ds_eq_model (x s e tol : Rat) :
+    Gen.inside_angle_range_ds x s e tol = DS.insideAngleRange x s e tol := by
+  have h := inside_angle_range_ds_loops_eq
+  simp only [Gen.inside_angle_range_ds, DS.insideAngleRange, DS.normAngle, (h _).1, (h _).2.1, (h _).2.2.1, (h _).2.2.2]
+  first | done | rfl | congr
+
+/-! ### C13 — `inside_angle_range` against Model/Zone.lean at its exact instance (`Rat`): the model answers `none`
+when the fuel runs out; wherever it answers, the translated function (which returns the current value) agrees -/
+
+/-- a fuel loop that returns the current value when the fuel runs out agrees with the model's `whileLoop`
+wherever the latter terminates -/
+theorem zone_loop_agree (c : Rat → Bool) (st : Rat → Rat) (g : Nat → Rat → Rat)
+    (h0 : ∀ y, g 0 y = y) (hs : ∀ n y, g (n + 1) y = if c y then g n (st y) else y) :
+    ∀ n y r, Zone.whileLoop c st n y = some r → g n y = r := by
+  intro n
+  induction n with
+  | zero =>
+    intro y r h
+    simp only [Zone.whileLoop] at h
+    split at h
+    · cases h
+    · rw [h0]; exact Option.some.inj h
+  | succ n ih =>
+    intro y r h
+    simp only [Zone.whileLoop] at h
+    rw [hs]
+    split at h
+    · rename_i hc; simp only [hc, if_true]; exact ih _ _ h
+    · rename_i hc; simp only [hc]; exact Option.some.inj h
+
+theorem inside_angle_range_rat_loops_zone (s : Rat) :
+    (∀ n y r, Zone.whileLoop (fun e => Zone.Scalar.lt s (Zone.Scalar.sub e (Zone.Scalar.ofNat 360)))
+        (fun e => Zone.Scalar.sub e (Zone.Scalar.ofNat 360)) n y = some r → Gen.inside_angle_range_rat_loop1 s n y = r) ∧
+    (∀ n y r, Zone.whileLoop (fun e => Zone.Scalar.lt e s) (fun e => Zone.Scalar.add e (Zone.Scalar.ofNat 360)) n y = some r →
+        Gen.inside_angle_range_rat_loop2 s n y = r) ∧
+    (∀ n y r, Zone.whileLoop (fun e => Zone.Scalar.le s (Zone.Scalar.sub e (Zone.Scalar.ofNat 360)))
+        (fun e => Zone.Scalar.sub e (Zone.Scalar.ofNat 360)) n y = some r → Gen.inside_angle_range_rat_loop3 s n y = r) ∧
+    (∀ n y r, Zone.whileLoop (fun e => Zone.Scalar.lt e s) (fun e => Zone.Scalar.add e (Zone.Scalar.ofNat 360)) n y = some r →
+        Gen.inside_angle_range_rat_loop4 s n y = r) := by
+  have c360 : (Zone.Scalar.ofNat 360 : Rat) = 360 := rfl
+  refine ⟨?_, ?_, ?_, ?_⟩ <;> apply zone_loop_agree <;> intros <;>
+    simp [Gen.inside_angle_range_rat_loop1, Gen.inside_angle_range_rat_loop2, Gen.inside_angle_range_rat_loop3,
+      Gen.inside_angle_range_rat_loop4, Zone.Scalar.lt, Zone.Scalar.le, Zone.Scalar.sub, Zone.Scalar.add, c360]
+
+theorem inside_angle_range_zone_eq_model (fuel : Nat) (x s e tol : Rat) (b : Bool)
+    (h : Zone.insideAngleRange fuel x s e tol = some b) : Gen.inside_angle_range_rat fuel x s e tol = b := by
+  simp only [Zone.insideAngleRange, Option.bind_eq_some_iff] at h
+  obtain ⟨e1, h1, e2, h2, x1, h3, x2, h4, hb⟩ := h
+  have L := inside_angle_range_rat_loops_zone
+  have a1 := (L s).1 _ _ _ h1
+  have a2 := (L s).2.1 _ _ _ h2
+  have a3 := (L (Zone.Scalar.sub s tol)).2.2.1 _ _ _ h3
+  have a4 := (L (Zone.Scalar.sub s tol)).2.2.2 _ _ _ h4
+  have hsub : Zone.Scalar.sub s tol = s - tol := rfl
+  simp only [hsub] at a3 a4
+  simp only [Gen.inside_angle_range_rat, a1, a2, a3, a4]
+  have := Option.some.inj hb
+  simpa [Zone.Scalar.le, Zone.Scalar.add] using this
+
+/-! ### C15 — timing fixes; C01 — `extent_mod`, the alpha/beta fade; C13 — channel-lock and zone constants/tests -/
+
+theorem has_interpolationLength_eq_model (b : TimingFix.Block) :
+    Gen.has_interpolationLength b.isObjects b.jp b.il = TimingFix.hasIL b := by
+  simp only [Gen.has_interpolationLength, TimingFix.hasIL]
+  cases b.il <;> cases b.isObjects <;> cases b.jp <;> simp
+
+theorem check_duration_eq_model (i : Nat) (a b : TimingFix.Block) (ra old rb db : Rat)
+    (h1 : a.rtime = some ra) (h2 : a.duration = some old) (h3 : b.rtime = some rb) (h4 : b.duration = some db) :
+    ((TimingFix.fixDuration i a b).1.duration, (TimingFix.fixDuration i a b).1.il) =
+      (some (Gen.check_duration ra old rb a.isObjects a.jp a.il).1, (Gen.check_duration ra old rb a.isObjects a.jp a.il).2) := by
+  cases a with
+  | mk rt du io jp il =>
+    cases b with
+    | mk brt bdu _ _ _ =>
+      simp only at h1 h2 h3 h4
+      subst h1 h2 h3 h4
+      cases il <;> cases io <;> cases jp <;>
+        simp [TimingFix.fixDuration, Gen.check_duration, TimingFix.hasIL] <;> grind
+
+theorem clamp_end_eq_model (i : Nat) (D r d : Rat) (b : TimingFix.Block) (h : b.duration = some d) :
+    (match TimingFix.clampEnd i D r d b with
+      | .error _ => none
+      | .ok p => some (p.1.duration, p.1.il)) =
+      (Gen.clamp_end D r d b.isObjects b.jp b.il).map (fun q => (some q.1, q.2)) := by
+  cases b with
+  | mk rt du io jp il =>
+    simp only at h
+    subst h
+    cases il <;> cases io <;> cases jp <;>
+      simp [TimingFix.clampEnd, Gen.clamp_end, TimingFix.hasIL] <;> grind
+
+section
+variable {α : Type} [GainCalc.Scalar α]
+theorem extent_mod_eq_model (extent distance : α) : Gen.extent_mod extent distance = GainCalc.extentMod extent distance := rfl
+theorem fade_gains_eq_model (s : α) : Gen.fade_gains s = GainCalc.fadeGains s := rfl
+end
+
+/-- `tol = 1e-5`: the binary64 value of the literal is the model's `eps5`. -/
+theorem lock_tol_eq_model : Gen.lock_tol = (Zone.Scalar.eps5 : Rat) := by first | rfl | decide
+/-- `epsilon = 1e-6`: the binary64 value of the literal is the model's `eps6`. -/
+theorem zone_epsilon_eq_model : Gen.zone_epsilon = (Zone.Scalar.eps6 : Rat) := by first | rfl | decide
+
+theorem lock_possible_test_eq_model (tol : Rat) (maxD : Option Rat) (cands : List (Lock.Cand Rat)) :
+    Lock.lockSelect tol maxD cands =
+      (let possible := cands.filter fun c => Gen.lock_possible_test c.d tol maxD
+       match possible with
+       | [] => .unchanged
+       | c0 :: cs =>
+         let minDist := Lock.minList c0.dw (cs.map Lock.Cand.dw)
+         match possible.filter fun (c : Lock.Cand Rat) => Zone.Scalar.lt c.dw (Zone.Scalar.add minDist tol) with
+         | [] => .error
+         | a :: as => .locked (Lock.argminPrio a as).idx) := by
+  have ft : ∀ l : List (Lock.Cand Rat), l.filter (fun _ => true) = l := by
+    intro l; induction l <;> simp_all
+  have e : ∀ (c : Lock.Cand Rat) (m : Rat),
+      Gen.lock_possible_test c.d tol (some m) = Zone.Scalar.lt c.d (Zone.Scalar.add m tol) := by
+    intro c m
+    first | rfl | (simp only [Gen.lock_possible_test, Zone.Scalar.lt, Zone.Scalar.add]; grind)
+  have e0 : ∀ (c : Lock.Cand Rat), Gen.lock_possible_test c.d tol none = true := by
+    intro c; rfl
+  unfold Lock.lockSelect
+  cases maxD <;> simp only [e, e0, ft] <;> grind
+
+theorem lock_closest_test_eq_model (tol : Rat) (maxD : Option Rat) (cands : List (Lock.Cand Rat)) :
+    Lock.lockSelect tol maxD cands =
+      (let possible : List (Lock.Cand Rat) := match maxD with
+         | some m => cands.filter fun (c : Lock.Cand Rat) => Zone.Scalar.lt c.d (Zone.Scalar.add m tol)
+         | none => cands
+       match possible with
+       | [] => .unchanged
+       | c0 :: cs =>
+         let minDist := Lock.minList c0.dw (cs.map Lock.Cand.dw)
+         match possible.filter fun (c : Lock.Cand Rat) => Gen.lock_closest_test c.dw minDist tol with
+         | [] => .error
+         | a :: as => .locked (Lock.argminPrio a as).idx) := by
+  have e : ∀ (c : Lock.Cand Rat) (m : Rat),
+      Gen.lock_closest_test c.dw m tol = Zone.Scalar.lt c.dw (Zone.Scalar.add m tol) := by
+    intro c m
+    first | rfl | (simp only [Gen.lock_closest_test, Zone.Scalar.lt, Zone.Scalar.add]; grind)
+  unfold Lock.lockSelect
+  simp only [e]
+  grind
+
+theorem zone_cart_test_eq_model (fuel : Nat) (minX maxX minY maxY minZ maxZ : Rat) (s : Zone.Spk Rat) :
+    Zone.zoneMatch fuel (.cart minX maxX minY maxY minZ maxZ) s =
+      some (Gen.zone_cart_test s.x s.y s.z Zone.Scalar.eps6 minX maxX minY maxY minZ maxZ) := by
+  simp [Zone.zoneMatch, Gen.zone_cart_test, Zone.Scalar.lt, Zone.Scalar.sub, Zone.Scalar.add, and_assoc, Bool.and_assoc]
+    <;> grind
+
+theorem zone_polar_test_eq_model (fuel : Nat) (minAz maxAz minEl maxEl : Rat) (s : Zone.Spk Rat) :
+    Zone.zoneMatch fuel (.polar minAz maxAz minEl maxEl) s =
+      (Zone.insideAngleRange fuel s.az minAz maxAz Zone.Scalar.eps6).bind fun inside =>
+        some (Gen.zone_polar_test s.el Zone.Scalar.eps6 minEl maxEl inside) := by
+  have c90 : (Zone.Scalar.ofNat 90 : Rat) = 90 := rfl
+  simp only [Zone.zoneMatch]
+  congr 1
+  funext inside
+  simp [Gen.zone_polar_test, Zone.Scalar.lt, Zone.Scalar.sub, Zone.Scalar.add, Zone.Scalar.abs, c90] <;> grind
 
 end Earverif.Kernels
